@@ -79,6 +79,33 @@ def copyMatch (pre : Array UInt8) (out : Array UInt8) (dist : Nat) : Nat → Arr
   | 0 => out
   | n + 1 => copyMatch pre (out.push (histByte pre out dist)) dist n
 
+/-- One step of reading the code lengths of a dynamic block: the symbols 0..15 are lengths,
+    16 repeats the previous length 3..6 times, 17 / 18 write 3..10 / 11..138 zeros. -/
+inductive LenStep
+  | more (pos : Nat) (acc : Array Nat)
+  | reject (w : Reject)
+  | truncated
+
+def readLenStep (cl : Code) (data : Array UInt8) (pos : Nat) (acc : Array Nat) : LenStep :=
+  match decodeSym cl data pos with
+  | .short => .truncated
+  | .invalid => .reject .clenCode
+  | .sym s pos =>
+    if s < 16 then .more pos (acc.push s)
+    else if s = 16 then
+      if acc.size = 0 then .reject .repeatNoPrev
+      else match bitsAt data pos 2 with
+        | none => .truncated
+        | some r => .more (pos + 2) (acc ++ Array.replicate (3 + r) (acc.getD (acc.size - 1) 0))
+    else if s = 17 then
+      match bitsAt data pos 3 with
+      | none => .truncated
+      | some r => .more (pos + 3) (acc ++ Array.replicate (3 + r) 0)
+    else
+      match bitsAt data pos 7 with
+      | none => .truncated
+      | some r => .more (pos + 7) (acc ++ Array.replicate (11 + r) 0)
+
 /-- Read the code lengths of a dynamic block with the code-length code `cl`. -/
 def readLens (cl : Code) (data : Array UInt8) (total : Nat) :
     Nat → Nat → Array Nat → Verdict (Nat × Array Nat)
@@ -86,61 +113,61 @@ def readLens (cl : Code) (data : Array UInt8) (total : Nat) :
   | fuel + 1, pos, acc =>
     if acc.size = total then .accept (pos, acc)
     else if acc.size > total then .reject .codeRun
-    else match decodeSym cl data pos with
-      | .short => .truncated #[]
-      | .invalid => .reject .clenCode
-      | .sym s pos =>
-        if s < 16 then readLens cl data total fuel pos (acc.push s)
-        else if s = 16 then
-          if acc.size = 0 then .reject .repeatNoPrev
-          else match bitsAt data pos 2 with
-            | none => .truncated #[]
-            | some r => readLens cl data total fuel (pos + 2)
-                          (acc ++ Array.replicate (3 + r) (acc.getD (acc.size - 1) 0))
-        else if s = 17 then
-          match bitsAt data pos 3 with
-          | none => .truncated #[]
-          | some r => readLens cl data total fuel (pos + 3) (acc ++ Array.replicate (3 + r) 0)
-        else
-          match bitsAt data pos 7 with
-          | none => .truncated #[]
-          | some r => readLens cl data total fuel (pos + 7) (acc ++ Array.replicate (11 + r) 0)
+    else match readLenStep cl data pos acc with
+      | .more pos acc => readLens cl data total fuel pos acc
+      | .reject w => .reject w
+      | .truncated => .truncated #[]
+
+/-- One token of a Huffman block. `avail` = number of bytes a match may reach back over. -/
+inductive TokStep
+  | lit (b : UInt8) (pos : Nat)
+  | eob (pos : Nat)
+  | copy (len dist pos : Nat)
+  | reject (w : Reject)
+  | truncated
+
+def decodeToken (maxDist : Nat) (lit dist : Code) (data : Array UInt8) (pos avail : Nat) : TokStep :=
+  match decodeSym lit data pos with
+  | .short => .truncated
+  | .invalid => .reject .badLitlenSym
+  | .sym s pos =>
+    if s < 256 then .lit s.toUInt8 pos
+    else if s = 256 then .eob pos
+    else if s > 285 then .reject .badLitlenSym
+    else
+      let lbe := lengthBaseExtra s
+      match bitsAt data pos lbe.2 with
+      | none => .truncated
+      | some lx =>
+        let len := lbe.1 + lx
+        let pos := pos + lbe.2
+        match decodeSym dist data pos with
+        | .short => .truncated
+        | .invalid => .reject .badDistSym
+        | .sym d pos =>
+          if d > 29 then .reject .badDistSym
+          else
+            let dbe := distBaseExtra d
+            match bitsAt data pos dbe.2 with
+            | none => .truncated
+            | some dx =>
+              let dd := dbe.1 + dx
+              let pos := pos + dbe.2
+              if dd > avail || dd > maxDist then .reject .distTooFar
+              else .copy len dd pos
 
 /-- Decode the tokens of one Huffman block up to and including end-of-block. -/
 def decodeTokens (pre : Array UInt8) (maxDist : Nat) (lit dist : Code) (data : Array UInt8) :
     Nat → Nat → Array UInt8 → Array Token → Verdict (Nat × Array UInt8 × Array Token)
   | 0, _, _, _ => .fuel
   | fuel + 1, pos, out, toks =>
-    match decodeSym lit data pos with
-    | .short => .truncated out
-    | .invalid => .reject .badLitlenSym
-    | .sym s pos =>
-      if s < 256 then
-        decodeTokens pre maxDist lit dist data fuel pos (out.push s.toUInt8) (toks.push (.lit s.toUInt8))
-      else if s = 256 then .accept (pos, out, toks)
-      else if s > 285 then .reject .badLitlenSym
-      else
-        let (lb, le) := lengthBaseExtra s
-        match bitsAt data pos le with
-        | none => .truncated out
-        | some lx =>
-          let len := lb + lx
-          let pos := pos + le
-          match decodeSym dist data pos with
-          | .short => .truncated out
-          | .invalid => .reject .badDistSym
-          | .sym d pos =>
-            if d > 29 then .reject .badDistSym
-            else
-              let (db, de) := distBaseExtra d
-              match bitsAt data pos de with
-              | none => .truncated out
-              | some dx =>
-                let dd := db + dx
-                let pos := pos + de
-                if dd > pre.size + out.size || dd > maxDist then .reject .distTooFar
-                else decodeTokens pre maxDist lit dist data fuel pos
-                       (copyMatch pre out dd len) (toks.push (.copy len dd))
+    match decodeToken maxDist lit dist data pos (pre.size + out.size) with
+    | .lit b pos => decodeTokens pre maxDist lit dist data fuel pos (out.push b) (toks.push (.lit b))
+    | .eob pos => .accept (pos, out, toks)
+    | .copy len dd pos =>
+      decodeTokens pre maxDist lit dist data fuel pos (copyMatch pre out dd len) (toks.push (.copy len dd))
+    | .reject w => .reject w
+    | .truncated => .truncated out
 
 def readClens (data : Array UInt8) : Nat → Nat → List Nat → Array Nat → Option (Nat × Array Nat)
   | 0, pos, _, acc => some (pos, acc)
@@ -163,77 +190,80 @@ def copyStoredPartial (data : Array UInt8) (bytePos : Nat) (out : Array UInt8) :
     | none => out
     | some b => copyStoredPartial data (bytePos + 1) (out.push b) n
 
-/-- Append the record of a finished block. -/
-def pushBlock (blocks : Array BlockInfo) (info : BlockInfo) (pos outEnd : Nat) : Array BlockInfo :=
-  blocks.push { info with bitEnd := pos, outEnd := outEnd }
+/-- One block starting at bit `pos` (its 3 header bits included): the position after it, the
+    output including it, its record. -/
+def inflateBlock (pre : Array UInt8) (maxDist : Nat) (data : Array UInt8) (fuel pos : Nat) (out : Array UInt8) :
+    Verdict (Nat × Array UInt8 × BlockInfo) :=
+  match bitsAt data pos 3 with
+  | none => .truncated out
+  | some hdr =>
+    let final := hdr % 2 = 1
+    let btype := hdr / 2
+    let start := pos
+    let pos := pos + 3
+    let outStart := out.size
+    -- (no closure over `out` here: a captured reference would force a copy of the whole array on
+    --  the next push)
+    let blank : BlockInfo := { final := final, btype := btype, bitStart := start, bitEnd := 0,
+                               outStart := outStart, outEnd := 0, litLens := #[], distLens := #[],
+                               clenLens := #[], tokens := #[] }
+    if btype = 0 then
+      let bpos := (pos + 7) / 8
+      match bitsAt data (8 * bpos) 16, bitsAt data (8 * bpos + 16) 16 with
+      | some len, some nlen =>
+        if len + nlen ≠ 65535 then .reject .storedLen
+        else match copyStored data (bpos + 4) out len with
+          | none => .truncated (copyStoredPartial data (bpos + 4) out len)
+          | some out' => .accept (8 * (bpos + 4 + len), out', blank)
+      | _, _ => .truncated out
+    else if btype = 1 then
+      match decodeTokens pre maxDist fixedLitCode fixedDistCode data fuel pos out #[] with
+      | .accept (pos, out', toks) =>
+        .accept (pos, out', { blank with litLens := fixedLitLens, distLens := fixedDistLens, tokens := toks })
+      | .reject w => .reject w
+      | .truncated p => .truncated p
+      | .fuel => .fuel
+    else if btype = 2 then
+      match bitsAt data pos 5, bitsAt data (pos + 5) 5, bitsAt data (pos + 10) 4 with
+      | some hlit, some hdist, some hclen =>
+        let nlit := hlit + 257
+        let ndist := hdist + 1
+        let nclen := hclen + 4
+        if nlit > 286 || ndist > 30 then .reject .tableSizes
+        else match readClens data nclen (pos + 14) clenOrder (Array.replicate 19 0) with
+          | none => .truncated out
+          | some (pos, clens) =>
+            if !codeValid .clen clens then .reject .clenCode
+            else match readLens (mkCode clens) data (nlit + ndist) fuel pos #[] with
+              | .accept (pos, lens) =>
+                let litLens := lens.extract 0 nlit
+                let distLens := lens.extract nlit (nlit + ndist)
+                if !codeValid .litlen litLens then .reject .litlenCode
+                else if !codeValid .dist distLens then .reject .distCode
+                else match decodeTokens pre maxDist (mkCode litLens) (mkCode distLens) data fuel pos out #[] with
+                  | .accept (pos, out', toks) =>
+                    .accept (pos, out', { blank with litLens := litLens, distLens := distLens, clenLens := clens, tokens := toks })
+                  | .reject w => .reject w
+                  | .truncated p => .truncated p
+                  | .fuel => .fuel
+              | .reject w => .reject w
+              | .truncated _ => .truncated out
+              | .fuel => .fuel
+      | _, _, _ => .truncated out
+    else .reject .blockType
 
 /-- The blocks of a DEFLATE stream, from bit `pos`. -/
 def inflateBlocks (pre : Array UInt8) (maxDist : Nat) (data : Array UInt8) :
     Nat → Nat → Array UInt8 → Array BlockInfo → Verdict (Nat × Array UInt8 × Array BlockInfo)
   | 0, _, _, _ => .fuel
   | fuel + 1, pos, out, blocks =>
-    match bitsAt data pos 3 with
-    | none => .truncated out
-    | some hdr =>
-      let final := hdr % 2 = 1
-      let btype := hdr / 2
-      let start := pos
-      let pos := pos + 3
-      let outStart := out.size
-      -- (no closure over `out`/`blocks` here: a captured reference would force a copy of the
-      --  whole array on the next push)
-      let blank : BlockInfo := { final := final, btype := btype, bitStart := start, bitEnd := 0,
-                                 outStart := outStart, outEnd := 0, litLens := #[], distLens := #[],
-                                 clenLens := #[], tokens := #[] }
-      if btype = 0 then
-        let bpos := (pos + 7) / 8
-        match bitsAt data (8 * bpos) 16, bitsAt data (8 * bpos + 16) 16 with
-        | some len, some nlen =>
-          if len + nlen ≠ 65535 then .reject .storedLen
-          else match copyStored data (bpos + 4) out len with
-            | none => .truncated (copyStoredPartial data (bpos + 4) out len)
-            | some out' =>
-              let pos' := 8 * (bpos + 4 + len)
-              let blocks := pushBlock blocks blank pos' out'.size
-              if final then .accept (pos', out', blocks) else inflateBlocks pre maxDist data fuel pos' out' blocks
-        | _, _ => .truncated out
-      else if btype = 1 then
-        match decodeTokens pre maxDist fixedLitCode fixedDistCode data fuel pos out #[] with
-        | .accept (pos, out', toks) =>
-          let blocks := pushBlock blocks { blank with litLens := fixedLitLens, distLens := fixedDistLens, tokens := toks } pos out'.size
-          if final then .accept (pos, out', blocks) else inflateBlocks pre maxDist data fuel pos out' blocks
-        | .reject w => .reject w
-        | .truncated p => .truncated p
-        | .fuel => .fuel
-      else if btype = 2 then
-        match bitsAt data pos 5, bitsAt data (pos + 5) 5, bitsAt data (pos + 10) 4 with
-        | some hlit, some hdist, some hclen =>
-          let nlit := hlit + 257
-          let ndist := hdist + 1
-          let nclen := hclen + 4
-          if nlit > 286 || ndist > 30 then .reject .tableSizes
-          else match readClens data nclen (pos + 14) clenOrder (Array.replicate 19 0) with
-            | none => .truncated out
-            | some (pos, clens) =>
-              if !codeValid .clen clens then .reject .clenCode
-              else match readLens (mkCode clens) data (nlit + ndist) fuel pos #[] with
-                | .accept (pos, lens) =>
-                  let litLens := lens.extract 0 nlit
-                  let distLens := lens.extract nlit (nlit + ndist)
-                  if !codeValid .litlen litLens then .reject .litlenCode
-                  else if !codeValid .dist distLens then .reject .distCode
-                  else match decodeTokens pre maxDist (mkCode litLens) (mkCode distLens) data fuel pos out #[] with
-                    | .accept (pos, out', toks) =>
-                      let blocks := pushBlock blocks { blank with litLens := litLens, distLens := distLens, clenLens := clens, tokens := toks } pos out'.size
-                      if final then .accept (pos, out', blocks) else inflateBlocks pre maxDist data fuel pos out' blocks
-                    | .reject w => .reject w
-                    | .truncated p => .truncated p
-                    | .fuel => .fuel
-                | .reject w => .reject w
-                | .truncated _ => .truncated out
-                | .fuel => .fuel
-        | _, _, _ => .truncated out
-      else .reject .blockType
+    match inflateBlock pre maxDist data fuel pos out with
+    | .accept (pos', out', info) =>
+      let blocks := blocks.push { info with bitEnd := pos', outEnd := out'.size }
+      if info.final then .accept (pos', out', blocks) else inflateBlocks pre maxDist data fuel pos' out' blocks
+    | .reject w => .reject w
+    | .truncated p => .truncated p
+    | .fuel => .fuel
 
 structure Inflated where
   out      : Array UInt8
